@@ -188,6 +188,10 @@ func c17Judge(c *mon.Ctx, aText, bText string, m V1Set) {
 		c.Violation("(v1) rendered diff is rejected by ReadDiffString: "+err.Error(), extra)
 		return
 	}
+	if msg := sharedContainer(d2); msg != "" {
+		c.Violation("(v1) the diff read from text shares storage between two of its values ("+msg+")", extra)
+		return
+	}
 	var P2 lib.JsonNode
 	if pan := mon.Safe(func() { P2, err = ReadJ1(aText).Patch(d2) }); pan != "" {
 		extra["panic"] = pan
@@ -196,6 +200,10 @@ func c17Judge(c *mon.Ctx, aText, bText string, m V1Set) {
 	}
 	if err != nil || P2 == nil {
 		c.Violation("(v1) the re-read diff does not apply to a: "+fmt.Sprint(err), extra)
+		return
+	}
+	if msg := sharedContainer(P2); msg != "" {
+		c.Violation("(v1) a freshly parsed document patched with a freshly read diff holds one container at two places ("+msg+")", extra)
 		return
 	}
 	if got := Plain1(P2); !v1Oracle(got, b, m) || !P2.Equals(ReadJ1(bText), m.MD()...) {
